@@ -46,6 +46,7 @@ LNAMES = ('x', 'y', 'z', 'a')
 CTXS = ('return', 'assign', 'if', 'try', 'with', 'listcomp', 'dictcomp', 'genexp', 'nested', 'lambda',
         'decoyarg', 'ternary', 'nested2', 'lambda_default', 'walrus', 'fstring', 'starred_display',
         'nested_decoyarg', 'lambda_decoykw', 'lambda_subscript', 'comp_rebinds_args', 'comp_rebinds_kwargs',
+        'loop_rebinds_args', 'loop_rebinds_kwargs',
         'nested_lambda', 'lambda_lambda',
         'nested_early', 'lambda_early', 'nested_listcomp', 'lambda_dictcomp', 'nested_listcomp_early', 'lambda_dictcomp_early',
         'nested_genexp_early', 'lambda_setcomp_early', 'genexp_lazy', 'genexp_lazy_early', 'async_nested', 'async_nested_early')
@@ -217,6 +218,15 @@ def normalise(prog):
             c['ctx'] = 'listcomp'
         if c['ctx'] == 'comp_rebinds_kwargs' and not (has_star['kwargs'] and c['sk'] == 'own'):
             c['ctx'] = 'listcomp'
+        if c['ctx'] == 'loop_rebinds_args' and not (has_star['args'] and c['sa'] == 'own'):
+            c['ctx'] = 'if'
+        if c['ctx'] == 'loop_rebinds_kwargs' and not (has_star['kwargs'] and c['sk'] == 'own'):
+            c['ctx'] = 'if'
+    loops = [c for c in prog['calls'] if c['ctx'] in ('loop_rebinds_args', 'loop_rebinds_kwargs')]
+    if loops:
+        # the rebinding outlives the loop -- for the reader of the source on every path, at run time only where the loop ran:
+        # such a program has this one forwarding call
+        prog['calls'] = loops[:1]
     nested_any = any(c['ctx'] in NESTED_CTXS for c in prog['calls'])
     for c in prog['calls']:
         c.setdefault('inarg', None)
@@ -394,6 +404,11 @@ def _stmt(ctx, expr, j):
         return 'def _inner%d():\n    return DECOY(%s)\n%s = _inner%d()\n' % (j, expr, r, j)
     if ctx == 'lambda_decoykw':
         return '%s = (lambda: DECOY(x=%s))()\n' % (r, expr)
+    if ctx == 'loop_rebinds_args':
+        # the second iteration forwards what the first one left behind
+        return 'for _i%d in (0, 1):\n    %s = %s\n    {A} = HA\n' % (j, r, expr)
+    if ctx == 'loop_rebinds_kwargs':
+        return 'for _i%d in (0, 1):\n    %s = %s\n    {K} = dict(HK)\n' % (j, r, expr)
     if ctx == 'comp_rebinds_args':
         return '%s = [%s for {A} in (HA,)][0]\n' % (r, expr)
     if ctx == 'comp_rebinds_kwargs':
@@ -545,7 +560,7 @@ def render(prog):
             else:
                 early, s = s.split(HOIST)
                 hoisted.append(early)
-        if c['ctx'] in ('comp_rebinds_args', 'comp_rebinds_kwargs'):
+        if c['ctx'] in ('comp_rebinds_args', 'comp_rebinds_kwargs', 'loop_rebinds_args', 'loop_rebinds_kwargs'):
             s = s.replace('{A}', va or 'args').replace('{K}', vk or 'kwargs')
         if route == 'shadow_nested':
             stmts.pop()
@@ -640,6 +655,10 @@ def taint_state(prog, upto=None):
             apply('args', 'hidden')
         elif calls[upto]['ctx'] == 'comp_rebinds_kwargs':
             apply('kwargs', 'hidden')
+        elif calls[upto]['ctx'] == 'loop_rebinds_args':
+            apply('args', 'both')
+        elif calls[upto]['ctx'] == 'loop_rebinds_kwargs':
+            apply('kwargs', 'both')
     for c in calls[:last + 1]:
         if c.get('inarg') == 'pop':
             apply('kwargs', 'same')
